@@ -112,6 +112,13 @@ pub fn scalar_set(r: &BigUint, quick: bool) -> Vec<(String, BigUint, usize)> {
             }
         }
     }
+    // scalars whose INTERNAL (Montgomery) representation is a structured limb pattern: k = m/R mod r
+    // (what a shortcut comparing against a constant built from the wrong limb domain matches)
+    for (i, k) in crate::fields::mont_patterns(r, 32, 0).into_iter().enumerate() {
+        if !quick || i % 2 == 0 || i < 4 {
+            push(format!("montgomery-pattern:{i}"), k, 4);
+        }
+    }
     // short and over-long presentations of small values
     push("5 (1 limb)".into(), BigUint::from(5u32), 1);
     push("5 (8 limbs)".into(), BigUint::from(5u32), 8);
